@@ -30,11 +30,12 @@ type Config struct {
 	Merge         map[string]bool // callees executed with path merging (must be statically pure)
 	Tier          int             // 0 quick, 1 thorough (read by harnesses through nd.Tier/nd.Bound)
 	Trace         bool
-	HashInjective bool // assume the hash UFs are collision-free on the explored pre-images
-	FmtInts       bool // fmt.Sprintf renders symbolic integers exactly (forks on the digit count)
-	MaxPreempt    int  // bound on preemptive context switches per path (0 = default 3)
-	ConcreteSched bool // concrete mode still uses the scheduler (schedule replay)
-	NoIfConv      bool // disable if-conversion of side-effect-free diamonds (debugging)
+	HashInjective bool            // assume the hash UFs are collision-free on the explored pre-images
+	StubText      map[string]bool // functions (full ssa names) whose string result is only message text: replaced by a placeholder
+	FmtInts       bool            // fmt.Sprintf renders symbolic integers exactly (forks on the digit count)
+	MaxPreempt    int             // bound on preemptive context switches per path (0 = default 3)
+	ConcreteSched bool            // concrete mode still uses the scheduler (schedule replay)
+	NoIfConv      bool            // disable if-conversion of side-effect-free diamonds (debugging)
 }
 
 // CE is a counterexample found on a path.
